@@ -47,6 +47,9 @@
     # a call that raises synchronously (invalid data) followed, in the same fiber turn, by a real wait
     [:badw pi tmo inner] (let [t (make-thunk inner chans)]
                            (fn [] (protect (ev/write ((pipes pi) 1) 12345 tmo)) (t)))
+    # a read that ends (data, time-out or cancellation) inside a nested fiber, then a second wait of the same task
+    [:trw pi tmo inner] (let [t (make-thunk inner chans)]
+                          (fn [] (try (ev/read ((pipes pi) 0) 4 nil tmo) ([e] nil)) (t)))
     # a bare ev/deadline set inside a nested fiber that ends at once, followed by a real wait of the task
     [:dlc s inner] (let [t (make-thunk inner chans)]
                      (fn [] (resume (coro (ev/deadline s) :done)) (t)))
